@@ -281,6 +281,18 @@ def gen_isqrt_inputs(stride):
     return _isqrt_cache[stride]
 
 
+def gen_elligator_pairs(n):
+    """pairs of Elligator inputs that are candidates for equal / opposite images (tools/elligator_pairs.py);
+    returns (path, stats)"""
+    os.makedirs(WORK, exist_ok=True)
+    path = os.path.join(WORK, "ellpairs_%d_%d.ndjson" % (n, os.getpid()))
+    r = subprocess.run([sys.executable, os.path.join(VERIF, "tools", "elligator_pairs.py"), path, str(n), str(seed())],
+                       capture_output=True, text=True, timeout=1800)
+    if r.returncode != 0:
+        raise ToolError("elligator_pairs.py failed: " + r.stderr[-2000:])
+    return path, json.loads(r.stdout.strip().splitlines()[-1])
+
+
 def apalache_inductive(module, init, ind_init, ind_inv, safety, timeout=900):
     """unbounded safety by an inductive invariant, discharged by Apalache: Init => IndInv; IndInv /\\ Next => IndInv';
     IndInv => Safety.  returns the list of the three commands; raises ToolError on anything but EXITCODE: OK"""
@@ -324,7 +336,7 @@ def gen_lazy_plan(cfg="cfg/LazyPlan.cfg"):
     shutil.rmtree(md, ignore_errors=True)
     if "No error has been found" not in r.stdout:
         raise ToolError("LazyVar plan generation failed:\n" + r.stdout[-2000:])
-    seqs = sorted(set(re.findall(r'"PLANLINE", "([CEVDNPMST]+)"', r.stdout)), key=lambda x: (len(x), x))
+    seqs = sorted(set(re.findall(r'"PLANLINE", "([CEVDNPMSTQ]+)"', r.stdout)), key=lambda x: (len(x), x))
     m = None
     for m in _mc_re.finditer(r.stdout):
         pass
@@ -353,7 +365,7 @@ KIND2PROP = {
     "gadget": "C13", "lazy_new": "C13", "lazy_op": "C13", "lazy_end": "C13",
     "hint": "C14",
     "shape": "C15", "pubinput": "C15", "groth16": "C15",
-    "blsgen": "C16", "blsmul": "C16", "blspair": "C16", "blsconst": "C16", "blsfrob": "C16", "blsdeser": "C16", "blspt": "C16",
+    "blsgen": "C16", "blsmul": "C16", "blspair": "C16", "blsconst": "C16", "blsfrob": "C16", "blsdeser": "C16", "blspt": "C16", "blsraw": "C16",
 }
 
 
